@@ -40,6 +40,12 @@ TEXT = {
     "C12": ("reference-model monitor: parse_tree::parse (with the match()-wrapping control underneath) vs the reference derivation filtered by the same selector table",
             "Exploration: corpus grammars incl. recursion, the context matrix and chains of 5..11 unselected rules around a selected leaf (is_leaf<8> boundary); selectors = all / random subsets / remove_content, fold_one, discard_empty / sparse; no, void, vetoing and throwing actions. Tree (type, begin, end, nesting, order, content kept) must equal the visible successful matches of the reference derivation with transformers applied bottom-up; null tree <=> no success; contents inside the input.",
             CORPUS_NOTE + " Custom node types out of reach. Known finding: nodes created on rematch sub-inputs keep a dangling source view.", "5/C12"),
+    "C13": ("trace-specification monitor over the state/action/control log against the match()-wrapper events, plus comparison of surviving scopes and action families with the reference interpreter",
+            "Exploration: state< S, R... >, action< B, ... >, control< B, ... >, enable/disable and change_state / change_states / change_action / change_action_and_state / change_control / enable_action / disable_action attached to arbitrary visible rules, nested with backtracking, predicates, must failures and try_catch. A state must be constructed before any nested invocation of the rule that carries it, with the entry cursor and the enclosing state; destroyed before that invocation ends; receive success() exactly once with the match-end cursor iff the rule matched (and actions are enabled for the action-based variants); every action must receive the innermost live state and the action/control family of the innermost enclosing switch.",
+            CORPUS_NOTE + " change_action_and_states is not generated.", "5/C13"),
+    "C15": ("reference-model monitor: integer rules and actions vs unsigned __int128 arithmetic and an independent numeral recogniser; window hook + poisoned digit tail; UBSan",
+            "Exploration with exhaustive sub-spaces: all digit strings up to width+1 (8-bit) / width (16-bit) with sign and trailer variants, boundary neighbourhoods of every cutoff, 10^k and type limit for 32/64-bit, 93 explicit maxima; every rule/action form for all eight fixed-width types, in four calling contexts (required, optional, opt<R>, sor<R,mark>) and two buffer placements. Acceptance, consumed length, stored value, overflow report, cursor after local failure and reads past the end are checked.",
+            "Trusts cpp/oracles/bigdec.hpp; 32/64-bit values away from the structured neighbourhoods are sampled.", "5/C15"),
     "C14": ("differential monitor: real json::text + eof vs an independent iterative RFC 8259 recogniser on exact-size / poisoned-tail buffers",
             "Exploration: all strings up to length 6 over a 15-symbol JSON alphabet, up to 4 over 43 symbols, seeded grammar-derived documents with single/double-edit mutations from a hostile byte set (all invalid-UTF-8 classes), number/literal/escape families, deep nesting; accept/reject must agree and no exception of any type may escape.",
             "Trusts cpp/oracles/json_rfc8259.hpp (cross-checked against Python's strict json on 381k strings) and utf_codec.hpp.", "5/C14"),
